@@ -104,6 +104,35 @@ def areadOp (w : List String) : String :=
     | _, _, _, _ => "bad-op"
   | _ => "bad-op"
 
+/-- acts of `areadm`: the model's `RAct`s, or `m` = `set_max_len(k)` (needs `&mut self`: a pending future is dropped first). -/
+inductive XRAct where
+  | act (a : RAct)
+  | setMax
+
+def parseXRActs (s : String) : Option (List XRAct) :=
+  (if s == "-" then [] else s.toList).mapM fun c =>
+    if c == 'p' then some (.act .poll) else if c == 'd' then some (.act .drop) else if c == 'm' then some .setMax else none
+
+def runXR (k : Nat) : List XRAct → RSys → List (Option (Poll (Except FErr (Option Val)))) × RSys
+  | [], s => ([], s)
+  | .act a :: r, s =>
+    let (s', o) := s.act valCodec a
+    let (os, s'') := runXR k r s'
+    (o :: os, s'')
+  | .setMax :: r, s =>
+    let (os, s'') := runXR k r ⟨s.rd.setMaxLen k, none⟩
+    (none :: os, s'')
+
+def areadmOp (w : List String) : String :=
+  match w with
+  | [ml, st, sc, acts, k] =>
+    match ml.toNat?, bytesOfHex st, parseScript sc, parseXRActs acts, k.toNat? with
+    | some ml, some st, some sc, some acts, some k =>
+      let (os, s) := runXR k acts ⟨AReader.init ml st sc, none⟩
+      s!"{joinOrDash (os.map showRPoll)} rem={s.rd.src.bytes.length} buf={s.rd.core.buffer.length}"
+    | _, _, _, _, _ => "bad-op"
+  | _ => "bad-op"
+
 def parseWAct (vs : List Val) (s : String) : Option (WAct Val) :=
   match s.toList with
   | ['s'] => some .sync
